@@ -192,7 +192,7 @@ def _text(rng, n):
 
 def gen_row_units(rng, row, budget, state):
   """Units that write one row: PAC, optional tab offset, then a mix of text / mid-row / special / extended / backspace.
-  `state` tracks colour so that the italics mid-row code is only used on white text (see DESIGN scope guard)."""
+  `state` tracks the colour in effect (the italics mid-row code keeps it, a colour mid-row code turns italics off)."""
   units = []
   r = rng.random()
   ul = rng.random() < 0.2
@@ -234,13 +234,22 @@ def gen_row_units(rng, row, budget, state):
       units.append(["ctl", "BS"])
       avail += 1
     if pi + 1 < pieces and avail > 4 and rng.random() < 0.7:
-      if state["color"] == 0 and rng.random() < 0.4:
+      if rng.random() < 0.4:
         units.append(["mid", -1, rng.random() < 0.2])
       else:
         c = rng.randrange(7)
         units.append(["mid", c, rng.random() < 0.2])
         state["color"] = c
       avail -= 1
+      if state.get("mid2") and avail > 4 and rng.random() < state["mid2"]:
+        # a second mid-row code straight after the first: colour then italics (coloured italics), or italics then colour
+        if units[-1][1] < 0:
+          c = rng.randrange(7)
+          units.append(["mid", c, rng.random() < 0.2])
+          state["color"] = c
+        else:
+          units.append(["mid", -1, rng.random() < 0.2])
+        avail -= 1
   return units
 
 
@@ -250,7 +259,7 @@ def gen_script(rng, knobs):
   ncap = knobs["captions"]
   style = rng.choice(knobs["styles"])
   first = True
-  state = {"color": 0}
+  state = {"color": 0, "mid2": knobs.get("mid2", 0.3)}
   k = 0
   while k < ncap:
     if not first and rng.random() < knobs["switch"]:
